@@ -231,7 +231,16 @@ def upgrade (c : Chain) : Chain × Res :=
   ({ c with clients := fun _ => false, nextSeq := fun _ => none, cseq := fun _ => 0, commits := fun _ => none,
             receipts := fun _ => false, sent := [], acked := [] }, .ok)
 
+/-- Restart of the node from an exported genesis: `app.ExportAppStateAndValidators(false, nil)` (every module's
+ExportGenesis), a new `app.NewTeleport` on an empty database, `InitChain` with that app state (`InitChainer`:
+`mm.InitGenesis`, then `SetEVMCode` of the system contracts — which re-sets code hash and account but leaves storage
+and balance alone). Export followed by import is meant to be lossless: the **identity** on everything this model
+talks about (chain counters and commitments by x/xibc genesis, contract counters and escrow by x/evm genesis —
+contract storage —, clients, receipts). Unlike `upgrade` nothing restarts: the ghost lists continue. -/
+def restart (c : Chain) : Chain × Res := (c, .ok)
+
 inductive Op where
+  | restart
   | upgrade
   | tx (vmOk : Bool) (logs : List Log)
   | recv (r : RecvIn)
@@ -239,6 +248,7 @@ inductive Op where
   | createClient (name : Bytes)
 
 def step (cfg : Cfg) (env : Env) (c : Chain) : Op → Chain × Res
+  | .restart => restart c
   | .upgrade => upgrade c
   | .tx v ls => applyTx env c v ls
   | .recv r => recv cfg env c r
